@@ -416,9 +416,6 @@ class EPoll(BasePoller):
         except OSError as e:
             if e.args[0] == EINTR:
                 return
-        except OSError as e:
-            if e.args[0] == EINTR:
-                return
             raise
 
         for fileno, event in ll:
